@@ -10,6 +10,7 @@ FILT = re.compile(sys.argv[3]) if len(sys.argv) > 3 else re.compile(".")
 TIER = sys.argv[4] if len(sys.argv) > 4 else "quick"
 SRC = os.environ.get("VERIF_SRC", "/verif")   # the /verif tree to copy (a worktree of it when testing uncommitted work)
 ROOT = os.environ.get("SEEDSWEEP_ROOT", "/tmp/ss")
+SEEDS = os.environ.get("SEED_DIR", "/verif/seeded")   # <SEED_DIR>/<property>-<k>/patch.diff
 
 def env_for(base):
     e = dict(os.environ, GOFLAGS="-mod=mod", GOPROXY="off", VERIF_REPO=base + "/repo", VERIF_EVIDENCE_DIR=base + "/ev",
@@ -43,7 +44,7 @@ def worker(w, seeds):
         t0 = time.time()
         prop = s.split("-")[0]
         sh("git checkout -q -- . && git clean -fdq", base + "/repo", e)
-        rc, out = sh("git apply /verif/seeded/%s/patch.diff" % s, base + "/repo", e)
+        rc, out = sh("git apply %s/%s/patch.diff" % (SEEDS, s), base + "/repo", e)
         rec = dict(seed=s, property=prop)
         if rc != 0:
             rec.update(rc=-1, line="PATCH DOES NOT APPLY: " + out[-200:])
@@ -58,7 +59,7 @@ def worker(w, seeds):
     shutil.rmtree(base, ignore_errors=True)
 
 def main():
-    seeds = sorted(os.path.basename(os.path.dirname(p)) for p in glob.glob("/verif/seeded/*/patch.diff"))
+    seeds = sorted(os.path.basename(os.path.dirname(p)) for p in glob.glob(SEEDS + "/*/patch.diff"))
     seeds = [s for s in seeds if FILT.search(s)]
     parts = [seeds[i::NW] for i in range(NW)]
     with ThreadPoolExecutor(NW) as ex:
